@@ -509,6 +509,68 @@ pub fn run(tier: Tier) -> i32 {
         }
     }
     rep.cov("cli_runs_with_damaged_stepped_over_packets", json!(skip_jobs));
+    // ---- resources under the control of the input: in stave mode one validator thread (with a pre-allocated queue)
+    //      is created per distinct FEE ID. 1344 individually valid FEE IDs (84 KiB of header-only packets) under an
+    //      address-space limit of 2 GiB (RLIMIT_AS, set for the child only); controls under the same limit: the same
+    //      packets with one FEE ID, and the FEE IDs in every other mode
+    {
+        use std::os::unix::process::CommandExt;
+        use std::os::unix::process::ExitStatusExt;
+        let fees: Vec<u16> = (0..7u16).flat_map(|layer| (0..4u16).flat_map(move |link| (0..48u16).map(move |stave| (layer << 12) | (link << 8) | stave))).collect();
+        let mk = |one: bool| -> Vec<u8> {
+            let pk: Vec<fp_model::stream::Packet> = fees
+                .iter()
+                .enumerate()
+                .map(|(i, f)| {
+                    let mut r = fp_model::rdh::Rdh::base();
+                    r.fee_id = if one { fees[0] } else { *f };
+                    r.orbit = 1 + i as u32;
+                    fp_model::stream::Packet::framed(r, Vec::new())
+                })
+                .collect();
+            fp_model::stream::to_bytes(&pk)
+        };
+        let many = mk(false);
+        let one = mk(true);
+        let jobs: Vec<(&str, &Vec<u8>, Vec<&str>, bool)> = vec![
+            ("one FEE ID, check all its-stave", &one, vec!["check", "all", "its-stave", "-m"], true),
+            ("1344 FEE IDs, check all its", &many, vec!["check", "all", "its", "-m"], true),
+            ("1344 FEE IDs, view rdh", &many, vec!["view", "rdh"], true),
+            ("1344 FEE IDs, check all its-stave", &many, vec!["check", "all", "its-stave", "-m"], false),
+        ];
+        let res = par_map(&jobs, |_, (_, bytes, mode, _)| {
+            let scratch = Scratch::new("c04r");
+            let inp = scratch.file("in.raw", bytes);
+            let mut cmd = std::process::Command::new(fp_harness::cli::cli_bin());
+            cmd.arg(&inp).args(mode.iter()).current_dir(&scratch.path).env("MALLOC_ARENA_MAX", "1").env("RUST_BACKTRACE", "0").stdout(std::process::Stdio::null()).stderr(std::process::Stdio::piped());
+            unsafe {
+                cmd.pre_exec(|| {
+                    let lim = libc::rlimit { rlim_cur: 2 << 30, rlim_max: 2 << 30 };
+                    libc::setrlimit(libc::RLIMIT_AS, &lim);
+                    Ok(())
+                });
+            }
+            match cmd.output() {
+                Ok(o) => (o.status.code(), o.status.signal(), String::from_utf8_lossy(&o.stderr).lines().find(|l| l.contains("panicked at") || l.contains("memory allocation")).unwrap_or("").to_string()),
+                Err(e) => (None, None, format!("spawn: {e}")),
+            }
+        });
+        for ((label, _, mode, control), (code, signal, note)) in jobs.iter().zip(res.iter()) {
+            let ok = signal.is_none() && matches!(code, Some(0) | Some(1));
+            if !ok {
+                if *control {
+                    rep.machinery_error(format!("control run under the 2 GiB address-space limit failed: {label}: exit {:?} signal {:?} {note}", code, signal));
+                } else {
+                    rep.violation(Violation {
+                        signature: "cli:resource-exhaustion:one-validator-thread-per-fee-id".into(),
+                        description: format!("exit {:?} signal {:?} under a 2 GiB address-space limit: {note} [{label}: 84 KiB of header-only packets with 1344 valid FEE IDs, `{}`]", code, signal, mode.join(" ")),
+                        replay: json!({"kind": "rlimit", "mode": mode, "fee_ids": fees.len()}),
+                    });
+                }
+            }
+        }
+        rep.cov("cli_runs_under_an_address_space_limit", json!(jobs.len()));
+    }
     rep.cov("states", json!(states));
     rep.cov("transitions", json!(transitions + jobs.len() as u64));
     rep.cov("traces_validated_against_impl", json!(transitions + jobs.len() as u64));
